@@ -89,7 +89,9 @@ def run_shard(acc, prop, tier, seed, shard, nshards, **kw):
         fn_leg(acc, srv, sub_rng(seed, PROP, tier, shard, "fn"), 10000 if tier == "quick" else 300000)
     finally:
         srv.close()
-    _w.shard(acc, PROP, tier, seed, shard, nshards, factory, WEIGHTS, (12, (120, 200)), (500, (120, 300)), CORR)
+    from .c02 import cell_walk
+    _w.shard(acc, PROP, tier, seed, shard, nshards, factory, WEIGHTS, (12, (120, 200)), (500, (120, 300)), CORR,
+             post_hook=cell_walk, post_every=(3, 2))
 
 
 def floors(acc, tier):
